@@ -245,6 +245,45 @@ impl Run {
         !self.failures.lock().unwrap().is_empty()
     }
 
+    /// Execute the committed regression inputs of /verif/corpus/<id>/ first (seconds).  A file with
+    /// "expect":"known:<finding id>" must be absorbed by that known finding; any other file must pass.
+    pub fn corpus(&self, replay: &dyn Fn(&Run, &Value) -> Result<(), Failure>) {
+        let dir = format!("{VERIF_ROOT}/corpus/{}", self.id);
+        let mut files: Vec<_> = match std::fs::read_dir(&dir) {
+            Ok(d) => d.filter_map(|e| e.ok()).map(|e| e.path()).filter(|p| p.extension().map(|x| x == "json").unwrap_or(false)).collect(),
+            Err(_) => return,
+        };
+        files.sort();
+        let mut n = 0;
+        for f in files {
+            let v: Value = match std::fs::read_to_string(&f).ok().and_then(|t| serde_json::from_str(&t).ok()) {
+                Some(v) => v,
+                None => {
+                    self.health.lock().unwrap().push(format!("corpus file {} does not parse", f.display()));
+                    continue;
+                }
+            };
+            let case = if v.get("case").is_some() { v["case"].clone() } else { v.clone() };
+            let before = self.known_hit.lock().unwrap().len();
+            n += 1;
+            match replay(self, &case) {
+                Ok(()) => {
+                    if let Some(k) = v["expect"].as_str().and_then(|e| e.strip_prefix("known:")) {
+                        let hit = self.known_hit.lock().unwrap().contains(k);
+                        if !hit && self.known_hit.lock().unwrap().len() == before {
+                            println!("note: known finding {k} did not reproduce from {} (defect gone?)", f.display());
+                        }
+                    }
+                }
+                Err(mut fl) => {
+                    fl.message = format!("regression input {}: {}", f.display(), fl.message);
+                    self.fail(fl);
+                }
+            }
+        }
+        self.stats.lock().unwrap().count("corpus-replays", n);
+    }
+
     /// Generator health: a label that must have been reached at least `min` times.
     pub fn require_label(&self, label: &str, min: u64) {
         let n = self.stats.lock().unwrap().labels.get(label).copied().unwrap_or(0);
